@@ -104,8 +104,9 @@ def sh(cmd, cwd=None, env=None, timeout=None, input=None):
 class Config:
     """one build configuration of the harness"""
 
-    def __init__(self, name, profile="dev", features=(), rustflags="", env=None, build_as=None):
+    def __init__(self, name, profile="dev", features=(), rustflags="", env=None, build_as=None, cargo_env=None):
         self.name, self.profile, self.features, self.rustflags = name, profile, tuple(features), rustflags
+        self.cargo_env = dict(cargo_env or {})
         self.env = dict(env or {})
         self.build_as = build_as or name  # run-time variants share the binary of another configuration
 
@@ -129,6 +130,12 @@ CONFIGS = {
     "cpuoff-release": Config("cpuoff-release", profile="release", env={"VERIF_CPU_OFF": "1"}, build_as="release"),
     "zeroize-cpuoff": Config("zeroize-cpuoff", features=("zeroize",), env={"VERIF_CPU_OFF": "1"}, build_as="zeroize"),
     "hazmat-cpuoff": Config("hazmat-cpuoff", features=("hazmat",), env={"VERIF_CPU_OFF": "1"}, build_as="hazmat"),
+    # unoptimised dev build: partially initialised unions / moves are not merged into whole-struct copies
+    "o0": Config("o0", cargo_env={"CARGO_PROFILE_DEV_OPT_LEVEL": "0"}),
+    "cpuoff-o0": Config("cpuoff-o0", env={"VERIF_CPU_OFF": "1"}, build_as="o0", cargo_env={"CARGO_PROFILE_DEV_OPT_LEVEL": "0"}),
+    "zeroize-o0": Config("zeroize-o0", features=("zeroize",), cargo_env={"CARGO_PROFILE_DEV_OPT_LEVEL": "0"}),
+    "zeroize-cpuoff-o0": Config("zeroize-cpuoff-o0", features=("zeroize",), env={"VERIF_CPU_OFF": "1"}, build_as="zeroize-o0",
+                                cargo_env={"CARGO_PROFILE_DEV_OPT_LEVEL": "0"}),
     "forcesoft": Config("forcesoft", rustflags="--cfg aes_force_soft"),
     "compact": Config("compact", rustflags="--cfg aes_compact"),
     "softcompact": Config("softcompact", rustflags="--cfg aes_force_soft --cfg aes_compact"),
@@ -153,6 +160,7 @@ def build_harness(cfg):
     if cfg.features:
         cmd += ["--features", ",".join(cfg.features)]
     env = {"CARGO_TARGET_DIR": cfg.target_dir(), "CARGO_NET_OFFLINE": "true"}
+    env.update(cfg.cargo_env)
     flags = cfg.rustflags
     env["RUSTFLAGS"] = (flags + " -Awarnings").strip()
     rc, out, err = sh(cmd, cwd=os.path.join(ROOT, "harness"), env=env, timeout=1800)
